@@ -200,6 +200,10 @@ class Evaluator:
                 return v
             if f.id in ("ValueError", "TypeError", "KeyError", "RuntimeError"):
                 return App(f.id, ())
+            if f.id == "partial" and e.args and isinstance(e.args[0], (ast.Name, ast.Attribute)) and not any(k.arg is None for k in e.keywords):
+                # functools.partial(fn, *args, **kw): remembered symbolically (the rule reads the bound arguments)
+                fn_name = ast.unparse(e.args[0]).split(".")[-1]
+                return App("partial:" + fn_name, tuple(self.ev(a) for a in e.args[1:]) + tuple(("kw", k.arg, self.ev(k.value)) for k in e.keywords))
         if isinstance(f, ast.Attribute) and f.attr in ("startswith", "endswith", "strip", "lower", "upper") and all(isinstance(a, ast.Constant) for a in e.args):
             v = self.ev(f.value)
             if isinstance(v, Const) and isinstance(v.value, str):
